@@ -332,6 +332,27 @@ func c15Scenarios(tier string) []*world.Scenario {
 				}
 			}
 		}
+		// the lost connection starts with a handshake (password configured): lost before / after AUTH is answered,
+		// after the first request; and a replica connection (AUTH + READONLY) that serves the reads
+		if n == "get" || n == "get-get" || n == "mget-split" {
+			for _, kind := range []string{"backend-close", "backend-rst"} {
+				for afterW := 0; afterW <= 2; afterW++ {
+					cs := ClientOf(pipes[n], true)
+					follow(&cs, keysA[5])
+					add(fmt.Sprintf("%s/%s/password/afterW%d", n, kind, afterW), "backend-close-handshake", "inflight-lost-on-backend-close",
+						&world.Scenario{Nodes: T3m(), Bound: b, Clients: []world.ClientSpec{cs}, Password: "secret",
+							Faults: []world.Fault{{Kind: kind, Addr: AddrA, AfterW: afterW}}})
+					if kind == "backend-close" {
+						cs2 := ClientOf(pipes[n], true)
+						follow(&cs2, keysA[5])
+						nodes := append(T3m(), world.NodeSpec{Name: "a1", Addr: AddrA1, Master: "aaa"})
+						add(fmt.Sprintf("%s/%s/password+replica/afterW%d", n, kind, afterW+1), "backend-close-handshake", "inflight-lost-on-backend-close",
+							&world.Scenario{Nodes: nodes, Bound: b, Clients: []world.ClientSpec{cs2}, Password: "secret",
+								Faults: []world.Fault{{Kind: kind, Addr: AddrA1, AfterW: afterW + 1}}})
+					}
+				}
+			}
+		}
 		// two clients sharing the lost connection
 		cs0 := ClientOf(pipes[n], true)
 		cs1 := ClientOf([]Req{GetReq(keysA[6])}, true)
@@ -631,6 +652,94 @@ func c16Scenarios(tier string) []*world.Scenario {
 				}
 				out = append(out, sc)
 			}
+		}
+	}
+	// the timed-out request is followed by requests the proxy answers itself, or by QUIT: the local replies and the close
+	// wait for the timeout error; and the stalled request is one that was redirected first (it stalls at the target)
+	for _, tail := range []string{"quit", "ping-quit", "unknown-get", "get-quit"} {
+		for _, first := range []string{"get", "mget", "moved-get"} {
+			stalled := keysA[0]
+			var r1 Req
+			switch first {
+			case "get", "moved-get":
+				r1 = GetReq(stalled)
+			case "mget":
+				r1 = MGetReq(stalled, keysB[5])
+			}
+			r1.Expect = []byte(world.RErrTimeout)
+			reqs := []Req{r1}
+			switch tail {
+			case "quit":
+				reqs = append(reqs, QuitReq())
+			case "ping-quit":
+				reqs = append(reqs, PingReq(), QuitReq())
+			case "unknown-get":
+				reqs = append(reqs, UnknownReq(), GetReq(keysC[2]))
+			case "get-quit":
+				reqs = append(reqs, GetReq(keysC[2]), QuitReq())
+			}
+			cs := ClientOf(reqs, true)
+			sc := &world.Scenario{Nodes: T3m(), Bound: b, Horizon: 300, TimeoutMs: 100, Clients: []world.ClientSpec{cs},
+				Ticks: []time.Duration{150 * time.Millisecond, time.Millisecond}, Family: "timeout-then-local-or-quit"}
+			need := 1
+			if first == "mget" {
+				need = 2
+			}
+			if tail == "unknown-get" || tail == "get-quit" {
+				need++
+			}
+			if first == "moved-get" {
+				need++
+			}
+			// the clock jumps once every request is at its node and every reply that is going to come has been read; the
+			// loop examines deadlines only after an event, so a second client says PING after the jump
+			sc.TickGate = func(w *world.World) bool {
+				if w.Ticks > 0 {
+					return true
+				}
+				if len(w.DataCmds("")) < need {
+					return false
+				}
+				for _, bc := range w.BConns {
+					di := 0
+					for _, rec := range bc.Log {
+						if nm := world.Lower(rec.Args[0]); len(rec.Args) > 1 && nm != "cluster" && !hasKey(rec.Args, stalled) && !bc.ReadByProxy(di) {
+							return false
+						}
+						di++
+					}
+				}
+				return true
+			}
+			wake := ClientOf([]Req{PingReq()}, true)
+			wake.Chunks[0].WaitTicks = 1
+			sc.Clients = append(sc.Clients, wake)
+			mv := first == "moved-get"
+			sc.Reply = func(w *world.World, bc *world.BConn, args [][]byte) ([]byte, int) {
+				if hasKey(args, stalled) {
+					if mv && bc.Addr == AddrA {
+						return movedTo(world.SpecSlot([]byte(stalled)), AddrB), 0
+					}
+					return world.DefaultReply(world.Lower(args[0]), args), -1
+				}
+				return nil, 0
+			}
+			sc.Name = fmt.Sprintf("C16/timeout-then/%s-then-%s/d%d", first, tail, b)
+			sc.Check = func(w *world.World) []world.Violation {
+				vs := CheckStreams(w, StreamOpts{})
+				for i := range vs {
+					switch vs[i].Sig {
+					case "missing-tail", "closed-with-pending", "quit-drops-pending", "quit-not-closed":
+						vs[i].Sig = "queue-stuck-after-timeout"
+					case "corrupt", "forwarded-swap":
+						vs[i].Sig = "timeout-error-out-of-position"
+					case "duplicate", "extra-bytes":
+						vs[i].Sig = "timeout-duplicated-or-late-reply-delivered"
+					}
+				}
+				return vs
+			}
+			out = append(out, sc)
 		}
 	}
 	// after the timeout the stalled node's connection is lost while the NEXT request (which reuses the recycled request
